@@ -10,5 +10,8 @@ CONSTANTS
   OwnBytes = TRUE
   Nodes = {"a", "b"}
   ConnConfig = "at-connect"
-INVARIANTS ReadBack
+  BareUpdate = "refused"
+  Sizes = {0}
+  ReadLimit = 0
+INVARIANTS ReadBack OffMeansOff
 CHECK_DEADLOCK FALSE
